@@ -343,7 +343,7 @@ inline void generate(Rng& r, bool thorough) {
     mindist = r.irange(0, 3) == 0 ? -1 : r.irange(0, 3) == 0 ? 0 : D(scale * r.pick(std::vector<double>{0.02, 0.05, 0.1, 0.3, 0.6, 0.9}));
   };
   auto size = [&]() { int c = r.irange(0, 9); return c == 0 ? r.irange(0, 3) : c < 6 ? r.irange(4, 60) : c < 9 ? r.irange(61, 300) : r.irange(301, 700); };
-  int N = thorough ? 8000 : 3000;
+  int N = thorough ? 6000 : 3000;
   for (int i = 0; i < N; ++i) {
     int kind = r.irange(0, 9) < 8 ? r.irange(0, 3) : 4; int n = size(); if (kind == 4) n = std::min(n, 120);
     int bucket = r.irange(0, 10), via = r.irange(0, 2) ? 0 : r.irange(1, 3);
